@@ -420,6 +420,8 @@ def run_concurrent_case(prog, params):
                         if got_snap[a][0] != 'dir':
                             findings.append(fnd(key_base + '|not_a_directory_afterwards', 'after all calls returned Ok, %s is %s' % (a, got_snap[a][0])))
                             return findings
+            ex.stats.asserts += 1       # this schedule's oracle (all Ok, every prefix a directory), decided on the path's values
+            ex.stats.discharged += 1
             return findings
         if bad:
             findings.append(fnd(key_base + '|tree_not_wellformed', 'after the concurrent calls: %s %s' % bad[0]))
